@@ -504,7 +504,7 @@ def c16_f(ctx: Ctx):
     else:
         out.append(ctx.viol(R, c, c.node, "imported directories are not initialised: jobs imported through a schema function have no state point file"))
     from .lints import no_nesting_move, no_path_text_search, walk_pruning_effective, strip_is_not_removeprefix
-    out += strip_is_not_removeprefix(ctx, R, ["signac.import_export"])
+    out += strip_is_not_removeprefix(ctx, R, ["signac.import_export", "signac.job"])
     out += walk_pruning_effective(ctx, R, ["signac.import_export"])
     out += no_path_text_search(ctx, R, [IE + ":_CopyFromZipFileExecutor.__call__", IE + ":_CopyFromTarFileExecutor.__call__", IE + ":_analyze_zipfile_for_import",
                                        IE + ":_analyze_tarfile_for_import", IE + ":_analyze_directory_for_import", IE + ":_crawl_directory_data_space", IE + ":_zip_path_is_within"],
